@@ -52,6 +52,15 @@ def classify(component, what, case):
             return "F51"                                   # … whose lost update lets lyd_new_path free the type under the other threads
         if case.get("summary", "").startswith("SEGV") and flags is not None and (flags & 32) and "F51" in (case.get("prior") or []):
             return "F51"                                   # … and the crash that follows in the same process
+        if flags is not None and (flags & 16):
+            # F50 corrupts the shared value: what follows in the same process, and the printers' error exits when a
+            # half-built value cannot be printed, are consequences — only in the regime with shared unions
+            if case.get("summary", "").startswith("SEGV") and "F50" in (case.get("prior") or []):
+                return "F50"
+            if "leaked in" in case.get("summary", "") and fr & {"json_print_data", "xml_print_data", "lyb_print_data"}:
+                return "F50"
+            if re.search(r"union\.c:\d+:\d+: runtime error: member access within null pointer", case.get("summary", "")):
+                return "F50"                               # realtype of the member value is NULL while another thread re-stores it
         if fr & LAZY_SITES:
             return "F9"                                    # lazy _canonical fill / its freshly published string
         return None
@@ -93,10 +102,10 @@ def strip_addr(s):
 
 
 # --------------------------------------------------------------------------------------- plumbing
-def run_one(exe, line, config, timeout=300):
+def run_one(exe, line, config, timeout=300, halt=False):
     e = dict(os.environ); e.update(proto.ASAN_ENV)
     if config == "tsan":
-        e["TSAN_OPTIONS"] = "exitcode=95:halt_on_error=0:second_deadlock_stack=1:suppressions=" + SUPP
+        e["TSAN_OPTIONS"] = "exitcode=95:halt_on_error=%d:second_deadlock_stack=1:suppressions=%s" % (1 if halt else 0, SUPP)
     try:
         p = subprocess.run([exe], input=(line + "\n").encode(), stdout=subprocess.PIPE, stderr=subprocess.PIPE, timeout=timeout, env=e)
         out, err, rc = p.stdout.decode("utf-8", "replace"), p.stderr.decode("utf-8", "replace"), p.returncode
@@ -389,7 +398,9 @@ def run_threads(cx, config, budget=None):
             break
         seed = rng.randrange(0, 5)
         line = "%d conc run %d %d %d %d %d" % (400000 + ci, n, mode, flags, it, seed)
-        reply, rc, err = run_one(exe, line, config, timeout=600)
+        # F50 and F51 corrupt memory shared by all threads: in those regimes the run stops at the first report (what
+        # follows a corrupted heap is arbitrary); everywhere else every report of the run is collected
+        reply, rc, err = run_one(exe, line, config, timeout=240, halt=bool(flags & 48))
         extra = {"flags": flags, "mode": mode, "n": n, "config": config}
         nrep = report_failures(cx, "api_threads", line, err, extra)
         good = (flags & 3) == 3 and not (flags & 16)
